@@ -1192,6 +1192,6 @@ pub fn run(env: &Env) -> i32 {
     rep.probe("C03-directives-unchecked-at-locations", probe("type Query { a: Int }", "query Q { ... @nope { a } }"));
     rep.probe("C03-same-interface-fragment-unchecked", probe("interface I { a: Int }\ntype T implements I { a: Int }\ntype Query { i: I }", "query Q { i { ... on I { nope } } }"));
 
-    rep.campaign("faults", env.cases(30_000, 400_000), (300, 1400), case_fn);
+    rep.campaign("faults", env.cases(120_000, 1_000_000), (300, 1400), case_fn);
     rep.finish()
 }
